@@ -51,6 +51,10 @@ class Run:
         self.ob(rule, "anchor:" + key, False, "anchor-unrecognised: " + what, cfg=cfg)
 
     def floor(self, rule, name, count, minimum, cfg=None):
+        """`minimum` is the number counted by hand on the full build; a dict {"full": n, "single": m} gives the count for
+        the single-backend configurations (mysql / postgres / sqlite) of the thorough tier"""
+        if isinstance(minimum, dict):
+            minimum = minimum["single"] if cfg in ("mysql", "postgres", "sqlite") else minimum["full"]
         self.ob(rule, "floor:" + name, count >= minimum,
                 "instance floor %s: analysed %d, floor %d (a rule that matches too little passes vacuously)" % (name, count, minimum),
                 cfg=cfg, trivial=True)
